@@ -43,7 +43,50 @@ pub fn parse(input: &str) -> (SourceFile, Vec<LocatedSyntaxError>) {
 	let mut errors = parse.errors;
 	duplicate_parameter_names(&file, &mut errors);
 	spaced_visibility_colons(&file, &mut errors);
+	comprehension_shape(&file, &mut errors);
 	(file, errors)
+}
+
+/// A comprehension is one element (in an object: one field, possibly with locals) followed by specs,
+/// the first of which is a `for`, and ends with its specs: `[a if b]`, `[a for a in b,]` and
+/// `{local a = 1 for b in c}` are errors for the evaluator's parsers. The event parser knows
+/// whether it has seen a list or a comprehension only at the closing bracket, so check the tree
+fn comprehension_shape(file: &SourceFile, errors: &mut Vec<LocatedSyntaxError>) {
+	use nodes::{CompSpec, ExprArrayComp, MemberComp, ObjBodyComp};
+	let mut error = |error: &str, range| {
+		errors.push(LocatedSyntaxError {
+			error: SyntaxError::Custom {
+				error: error.to_owned(),
+			},
+			range,
+		});
+	};
+	for comp in file.syntax().descendants() {
+		let object = ObjBodyComp::can_cast(comp.kind());
+		if !object && !ExprArrayComp::can_cast(comp.kind()) {
+			continue;
+		}
+		let mut specs = 0;
+		for child in comp.children_with_tokens() {
+			if CompSpec::can_cast(child.kind()) {
+				if specs == 0 && child.kind() != SyntaxKind::FOR_SPEC {
+					error("first compspec should be for", child.text_range());
+				}
+				specs += 1;
+			} else if specs != 0 && child.kind() == T![,] {
+				error("compspecs can't be followed by comma", child.text_range());
+			}
+		}
+		// `{for a in b}` is reported by the parser itself
+		if object
+			&& !comp.children().any(|c| {
+				c.kind() == SyntaxKind::ERROR_MISSING_TOKEN
+					|| MemberComp::cast(c)
+						.is_some_and(|m| !matches!(m, MemberComp::MemberBindStmt(_)))
+			}) {
+			error("missing object comprehension field", comp.text_range());
+		}
+	}
 }
 
 /// `::` and `:::` are single tokens of the grammar, the lexer only knows `:` and the evaluator's
